@@ -203,6 +203,11 @@ def main():
         raise Unparsed("splinetable_read_key reports the result for one type only")
     sk["c_read_key"] = cr
     sk["c_write_key"] = norm(body_after(cc, r"int\s+splinetable_write_key\s*\("))
+    # ---- accessors in splinetable.h (one-liners, required verbatim)
+    sh = norm(read("include/photospline/splinetable.h"))
+    for acc in ("size_tget_naux_values()const{return(naux);}", "constchar*get_aux_key(size_ti)const{return(aux[i][0]);}"):
+        if sh.count(acc) != 1:
+            raise Unparsed("accessor not found verbatim in splinetable.h: " + acc)
     if show:
         for k, v in sk.items():
             print(k, sha(v))
